@@ -9,4 +9,4 @@ import (
 
 // Discards in-flight bookkeeping left behind by an execution the scheduler aborted (only
 // the checks that start the scheduler abort executions).
-func init() { verifrt.OnReset(func() { group = singleflight.Group{} }) }
+func init() { verifrt.OnReset(func() { VERIF_VAR_group = singleflight.Group{} }) }
